@@ -124,13 +124,13 @@ CHECKS = {
             'the hand-written grammar the theorems are about; fingerprints of DEFAULT_ARG and the comment expression unchanged. '
             'Theorems (Parse/RoundTrip.v, Parse/RoundTripModule.v): C01_type_roundtrip - every well-formed type, printed, parses back to itself at any depth; '
             'C01_arglist_roundtrip / C01_function_roundtrip - argument lists of any length and whole function declarations; C01_items_roundtrip - a '
-            'whole FILE of functions (single or pair return), variables, includes, enumerations, typedefs, forward declarations and classes (constructors, methods, static methods, properties, nested enumerations) inside namespaces nested to any depth goes through Module.parseString (tab expansion, the 8-way longest-match alternation, repetition, StringEnd, '
+            'whole FILE of functions (single or pair return), variables, includes, enumerations, typedefs, forward declarations and classes (optional plain base; constructors, methods, static methods, properties, nested enumerations) inside namespaces nested to any depth goes through Module.parseString (tab expansion, the 8-way longest-match alternation, repetition, StringEnd, '
             'node constructors) and comes back as exactly those declarations, never "unsupported". Decided per input: (a) implementation '
             'tree = the declarations the generator rendered (kinds, names, nesting, types to any depth, template lists, default text, '
             'bases, flags), (b) model tree = implementation tree, in five layout styles; recorded findings by witness.',
             'partial: the print/parse round-trip THEOREMS cover types (basic and custom, namespace paths, const/*/@/&, template arguments to any '
             'depth), argument lists without defaults, function declarations, variables, includes, enumerations, typedefs, forward declarations, classes with constructors / methods / static methods / properties / nested enumerations, and namespaces around them at any depth; '
-            'for templates, base classes, operators, defaults the mirror '
+            'for templates, templated bases, operators, dunder methods, defaults the mirror '
             'property is decided by the generator-based comparison and the model tie (sampling); pyparsing semantics is modelled.',
             'Coq model regenerated from live grammar objects (translator) + tie obligations + model/implementation correspondence', '6 C01'),
     'C07': ('proof', 'Theorems (Props/C07.v) for EVERY grammar over pyparsing\'s terminals: whatever the interpreter matches, the text '
